@@ -242,7 +242,8 @@ def explore(pid, tier, seed, jobs=None):
             results[i] = _run_block((i, b))[1]
     else:
         # longest-first is not known; keep the declared order, small chunks
-        with mp.get_context("fork").Pool(jobs) as pool:
+        fresh = 1 if getattr(mod, "FRESH_WORKER_PER_BLOCK", False) else None  # every block in a new fork of this process
+        with mp.get_context("fork").Pool(jobs, maxtasksperchild=fresh) as pool:
             for idx, ctx in pool.imap_unordered(_run_block, list(enumerate(blocks)), chunksize=1):
                 results[idx] = ctx
     total = Ctx(pid)
